@@ -488,6 +488,8 @@ def dispatch(ctx, case):
         return utp_class_fails(case)
     if case.get('op') == 'intarr-pow':
         return intarr_pow_fails(case, ctx)
+    if case.get('op') == 'intbase-pow':
+        return intbase_pow_fails(case)
     if case.get('form') == 'inplace-view':
         return inplace_view_fails(case)
     if case.get('op') == 'pow':
@@ -511,6 +513,7 @@ def run(ctx):
     systematic_narrow_scalars(ctx)
     systematic_intarr_pow(ctx)
     systematic_pow_dtypes(ctx)
+    systematic_intbase_pow(ctx)
     for i in range(n):
         case = gen_pow(ctx.rng, ctx.tier) if i % 6 == 5 else gen_case(ctx.rng, ctx.tier)
         ctx.evaluations += 1
@@ -716,6 +719,37 @@ def systematic_pow_dtypes(ctx):
             ctx.evaluations += 1
             ctx.count('op=pow', 'pow:systematic-dtypes')
             res = dispatch(ctx, case)
+            if res is not None:
+                ctx.report(case, 'failure', res)
+
+
+def intbase_pow_fails(case):
+    """x ** r with the coefficients of x stored in an INTEGER dtype and a float exponent: the result is allocated in NumPy's
+    promoted dtype (float), so the coefficients are those of the float copy of the same polynomial"""
+    x = np.array(case['x'])
+    xi = x.astype(case['dtype'])
+    r = case['r']
+    with np.errstate(all='ignore'):
+        want = (UTPM(xi.astype(float)) ** r).data
+        try:
+            got = (UTPM(xi.copy()) ** r).data
+        except Exception as ex:
+            return 'intbase-pow-exception: %s' % (type(ex).__name__ + ':' + str(ex)[:60])
+    if got.dtype.kind in 'iub' or not close(got, want, 1e-12):
+        return 'intbase-pow: x ** %r with %s coefficients differs from the float copy of the same polynomial (result dtype %s)' % (r, case['dtype'], got.dtype)
+    return None
+
+
+def systematic_intbase_pow(ctx):
+    for dtype in ('int64', 'int32', 'uint8'):
+        for r in (0.5, 1.5, -1.0, -0.5, 2.5, np.float64(0.5)):
+            D, P = ctx.rng.randint(2, 3), ctx.rng.randint(1, 2)
+            x = np.floor(rand_coeffs(ctx.rng, (D, P, 3), 0, 6))
+            x[0] = np.floor(rand_coeffs(ctx.rng, (P, 3), 2, 9))          # positive base points, exact small integers
+            case = {'op': 'intbase-pow', 'D': D, 'P': P, 'x': x, 'dtype': dtype, 'r': float(r)}
+            ctx.evaluations += 1
+            ctx.count('pow:int-dtype-base')
+            res = intbase_pow_fails(case)
             if res is not None:
                 ctx.report(case, 'failure', res)
 
